@@ -91,13 +91,18 @@ theorem firstPrefTotals_scale (k : Rat) (p : Profile) :
   rw [mul_zero] at h
   exact h
 
-theorem eliminateOne_scale (k : Rat) (hk : 0 < k) (p : Profile) : eliminateOne (scaleR k p) = eliminateOne p := by
-  unfold eliminateOne
+theorem eliminateOneRaw_scale (k : Rat) (hk : 0 < k) (p : Profile) : eliminateOneRaw (scaleR k p) = eliminateOneRaw p := by
+  unfold eliminateOneRaw
   simp only [firstPrefTotals_scale, scaleVotes_length]
   split
   · rfl
   · rfl
   · rw [getNBest_scaleC k hk]
+
+/-- `eliminate_one` with the refusal of a tied elimination (fix 30bd79e): the raw answer is the same, so is the refusal -/
+theorem eliminateOne_scale (k : Rat) (hk : 0 < k) (p : Profile) : eliminateOne (scaleR k p) = eliminateOne p := by
+  unfold eliminateOne
+  rw [eliminateOneRaw_scale k hk]
 
 theorem benhamCW_scale (k : Rat) (hk : 0 < k) (p : Profile) : benhamCW (scaleR k p) = benhamCW p := by
   unfold benhamCW; rw [rankedToCondorcetR_scale, condorcetWinner_scale k hk]
@@ -138,7 +143,7 @@ theorem tidemanTier_scale (k : Rat) (hk : 0 < k) (smith : Bool) : ∀ (f : Nat) 
   | succ f ih =>
     intro rv
     simp only [tidemanTier, scaleR_isEmpty, rankedToCondorcetR_scale, smithSchwartz_scale k hk, subsetProfile_scale,
-      eliminateOne_scale k hk, ih]
+      eliminateOne_scale k hk, allRankedCandidatesR_scale, ih]
 
 theorem tidemanRunTier_scale (k : Rat) (hk : 0 < k) (smith : Bool) (f : Nat) (rv : Profile) :
     tidemanRunTier smith f (scaleR k rv) = tidemanRunTier smith f rv := by
